@@ -38,6 +38,23 @@ PROPS = {
         "trusted_base": [],
         "assumptions": ["timeout: None (the property's quantifier)"],
     },
+    "C06": {
+        "num": 6,
+        "vo": ["Properties/C06.vo"],
+        "harness_timeout": 2400,
+        "rule": "random histories of 3..12 insert / update / retract / fire_all / reset ops over up to 6 facts of 3 types and 2..6 single-type rules (And/Or/Not trees of integer comparisons over 3 fields, "
+                "possibly missing); even cases: actions with effects (assign a field, retract the matched fact), distinct priorities and at most one live fact per type (the outcome is then independent of HashSet "
+                "iteration order) - firings compared in order with the matched handle and the matched fact's contents as seen by the action; odd cases: inert actions, several facts per type, salience ties - "
+                "fired rule names compared as a multiset. After every op the three working-memory views are dumped. Each case runs in a child process with a 60 s watchdog. non-trivial = at least one firing",
+        "level_text": "Proved on the model for every engine state: every firing produced by fire_all is for a rule whose condition is true of the matched fact's contents at that moment (and only live facts are "
+                "matched); handles are issued in increasing order. The property's sentences - firings only for live satisfying facts, retracted facts never fire, exactly-once firing of no-loop rules under inert actions, "
+                "agreement of the three working-memory views, handle freshness - are the Coq-defined monitor Incremental.ok evaluated on the implementation's own observations (it does not use the propagation model), "
+                "and the model is compared with the code per op.",
+        "level_note": "Trusted: Coq kernel; model of propagation.rs/working_memory.rs after fixes a666833 and 26cddab; HashSet iteration orders modelled as ascending (histories are generated so that outcomes do not depend on them); "
+                "custom action closures mirror what GrlReteLoader actions do to working memory; harness; extraction. Multi-type joins, accumulate, multifield nodes are outside 'single-type rule sets'. Axioms: none.",
+        "trusted_base": ["std HashSet/HashMap iteration order is unspecified: generated histories avoid order-dependent outcomes"],
+        "assumptions": ["rules are single-type; facts carry integer fields"],
+    },
     "C07": {
         "num": 7,
         "vo": ["Properties/C07.vo"],
